@@ -48,9 +48,143 @@ func initKind(e ast.Expr) string {
 	return "expr"
 }
 
+// skeleton: the control skeleton of a function of the server packages - every call (logging and formatting aside) in
+// source order, every condition, every return - as a flat list of tokens
+func skeleton(body *ast.BlockStmt) []string {
+	var out []string
+	quiet := func(fn string) bool {
+		for _, p := range []string{"logger.", "log.", "fmt.", "errors.", "strings.", "strconv."} {
+			if strings.HasPrefix(fn, p) {
+				return true
+			}
+		}
+		return false
+	}
+	var expr func(e ast.Node)
+	expr = func(e ast.Node) {
+		ast.Inspect(e, func(n ast.Node) bool {
+			switch x := n.(type) {
+			case *ast.FuncLit:
+				out = append(out, "func{")
+				stmts(x.Body.List, &out, expr)
+				out = append(out, "}")
+				return false
+			case *ast.CallExpr:
+				// arguments first (they are evaluated first), then the call
+				for _, a := range x.Args {
+					expr(a)
+				}
+				if sel, ok := x.Fun.(*ast.SelectorExpr); ok {
+					expr(sel.X)
+				}
+				if fn := src(x.Fun); !quiet(fn) {
+					tok := "call " + fn
+					// what is answered is part of the skeleton: status codes and header values
+					if strings.HasSuffix(fn, ".WriteHeader") || strings.HasSuffix(fn, ".Header().Set") || fn == "http.Error" {
+						var as []string
+						for _, a := range x.Args {
+							if _, isCall := a.(*ast.CallExpr); isCall {
+								as = append(as, "<call>")
+							} else {
+								as = append(as, src(a))
+							}
+						}
+						tok += "(" + strings.Join(as, ", ") + ")"
+					}
+					out = append(out, tok)
+				}
+				return false
+			}
+			return true
+		})
+	}
+	stmts(body.List, &out, expr)
+	return out
+}
+
+func stmts(list []ast.Stmt, out *[]string, expr func(ast.Node)) {
+	for _, st := range list {
+		switch s := st.(type) {
+		case *ast.IfStmt:
+			if s.Init != nil {
+				stmts([]ast.Stmt{s.Init}, out, expr)
+			}
+			expr(s.Cond)
+			*out = append(*out, "if "+src(s.Cond)+" {")
+			stmts(s.Body.List, out, expr)
+			if s.Else != nil {
+				*out = append(*out, "} else {")
+				switch el := s.Else.(type) {
+				case *ast.BlockStmt:
+					stmts(el.List, out, expr)
+				default:
+					stmts([]ast.Stmt{el}, out, expr)
+				}
+			}
+			*out = append(*out, "}")
+		case *ast.ForStmt:
+			*out = append(*out, "for {")
+			stmts(s.Body.List, out, expr)
+			*out = append(*out, "}")
+		case *ast.RangeStmt:
+			expr(s.X)
+			*out = append(*out, "range "+src(s.X)+" {")
+			stmts(s.Body.List, out, expr)
+			*out = append(*out, "}")
+		case *ast.SwitchStmt:
+			tag := ""
+			if s.Tag != nil {
+				expr(s.Tag)
+				tag = src(s.Tag)
+			}
+			*out = append(*out, "switch "+tag+" {")
+			for _, cs := range s.Body.List {
+				cc := cs.(*ast.CaseClause)
+				var ls []string
+				for _, l := range cc.List {
+					ls = append(ls, src(l))
+				}
+				*out = append(*out, "case "+strings.Join(ls, ", ")+":")
+				stmts(cc.Body, out, expr)
+			}
+			*out = append(*out, "}")
+		case *ast.ReturnStmt:
+			for _, r := range s.Results {
+				expr(r)
+			}
+			var rs []string
+			for _, r := range s.Results {
+				if _, isCall := r.(*ast.CallExpr); isCall {
+					rs = append(rs, "<call>")
+				} else if _, isFn := r.(*ast.FuncLit); isFn {
+					rs = append(rs, "<func>")
+				} else {
+					rs = append(rs, src(r))
+				}
+			}
+			*out = append(*out, "return "+strings.Join(rs, ", "))
+		case *ast.DeferStmt:
+			*out = append(*out, "defer "+src(s.Call.Fun))
+		case *ast.GoStmt:
+			*out = append(*out, "go "+src(s.Call.Fun))
+		case *ast.BlockStmt:
+			stmts(s.List, out, expr)
+		default:
+			expr(st)
+		}
+	}
+}
+
+var skeletonDirs = []string{"internal/files", "internal/files/v2", "internal/storage", "internal/responder"}
+
 func emitState(dir, repo string) {
 	type ent struct{ key, val string }
-	var globals, fields []ent
+	var globals, fields, envReads []ent
+	type skel struct {
+		key string
+		toks []string
+	}
+	var skels []skel
 	for _, d := range stateDirs {
 		ents, err := os.ReadDir(filepath.Join(repo, d))
 		if err != nil {
@@ -73,6 +207,55 @@ func emitState(dir, repo string) {
 			f, err := parser.ParseFile(fset, path, b, 0)
 			if err != nil {
 				continue
+			}
+			for _, sd := range skeletonDirs {
+				if sd != d {
+					continue
+				}
+				for _, decl := range f.Decls {
+					if fd, ok := decl.(*ast.FuncDecl); ok && fd.Body != nil {
+						name := fd.Name.Name
+						if fd.Recv != nil {
+							name = recvType(fd) + "." + name
+						}
+						skels = append(skels, skel{d + ":" + name, skeleton(fd.Body)})
+					}
+				}
+			}
+			// where the process environment / the FRB compatibility mode is consulted: (function, call), with multiplicity
+			for _, decl := range f.Decls {
+				var body ast.Node
+				name := ""
+				switch x := decl.(type) {
+				case *ast.FuncDecl:
+					if x.Body == nil {
+						continue
+					}
+					body, name = x.Body, x.Name.Name
+					if x.Recv != nil {
+						name = recvType(x) + "." + name
+					}
+				case *ast.GenDecl:
+					if x.Tok != token.VAR {
+						continue
+					}
+					body, name = x, "(package variable initialiser)"
+				default:
+					continue
+				}
+				ast.Inspect(body, func(nd ast.Node) bool {
+					if c, ok := nd.(*ast.CallExpr); ok {
+						switch fn := src(c.Fun); fn {
+						case "os.Getenv", "os.LookupEnv", "os.Environ", "IsFRBCompatibilityModeEnabled", "imagecashletter.IsFRBCompatibilityModeEnabled":
+							arg := ""
+							if len(c.Args) == 1 {
+								arg = src(c.Args[0])
+							}
+							envReads = append(envReads, ent{d + ":" + name, fn + "(" + arg + ")"})
+						}
+					}
+					return true
+				})
 			}
 			for _, decl := range f.Decls {
 				gd, ok := decl.(*ast.GenDecl)
@@ -118,6 +301,7 @@ func emitState(dir, repo string) {
 	}
 	sort.Slice(globals, func(i, j int) bool { return globals[i].key < globals[j].key })
 	sort.Slice(fields, func(i, j int) bool { return fields[i].key < fields[j].key })
+	sort.SliceStable(envReads, func(i, j int) bool { return envReads[i].key < envReads[j].key })
 	var sb strings.Builder
 	sb.WriteString("/- GENERATED by harness/extract from /repo — do not edit. -/\nnamespace Icl.Gen.State\n\n")
 	sb.WriteString("/-- every package-level variable: (package directory:name, declared type or kind of initialiser) -/\ndef globals : List (String × String) := [\n")
@@ -132,6 +316,27 @@ func emitState(dir, repo string) {
 	for i, e := range fields {
 		sep := ","
 		if i == len(fields)-1 {
+			sep = ""
+		}
+		fmt.Fprintf(&sb, "  (%s, %s)%s\n", leanStr(e.key), leanStr(e.val), sep)
+	}
+	sb.WriteString("]\n\n/-- the control skeleton of every function of the server packages: its calls (logging and formatting aside) in source\norder, its conditions, its returns -/\ndef skeletons : List (String × List String) := [\n")
+	sort.Slice(skels, func(i, j int) bool { return skels[i].key < skels[j].key })
+	for i, e := range skels {
+		sep := ","
+		if i == len(skels)-1 {
+			sep = ""
+		}
+		var qs []string
+		for _, tk := range e.toks {
+			qs = append(qs, leanStr(tk))
+		}
+		fmt.Fprintf(&sb, "  (%s, [%s])%s\n", leanStr(e.key), strings.Join(qs, ", "), sep)
+	}
+	sb.WriteString("]\n\n/-- where the process environment or the FRB compatibility mode is consulted: (package directory:function, call) -/\ndef envReads : List (String × String) := [\n")
+	for i, e := range envReads {
+		sep := ","
+		if i == len(envReads)-1 {
 			sep = ""
 		}
 		fmt.Fprintf(&sb, "  (%s, %s)%s\n", leanStr(e.key), leanStr(e.val), sep)
